@@ -10,6 +10,9 @@ import warnings
 from . import common, dom, sel as selmod, tlc
 
 
+SPELL_SEED = None
+
+
 def _run_events(args):
     """worker: build documents, run the real select, return ndjson lines"""
     jobs, = args
@@ -21,7 +24,14 @@ def _run_events(args):
         idmap = dom.ids_of(nodes)
         root = min([i + 1 for i, (p, k) in enumerate(zip(d['parent'], d['kind'])) if p == 0 and k == 'e'] or [0])
         for j, ast in enumerate(asts):
-            css = selmod.selector_list(ast)
+            if SPELL_SEED is not None:       # the text handed to the real select is a random respelling of the AST (harness/sel.py)
+                import random
+                import zlib
+                selmod.SPELL = random.Random(zlib.crc32(('%s|%s|%d' % (SPELL_SEED, eid, j)).encode()))
+            try:
+                css = selmod.selector_list(ast)
+            finally:
+                selmod.SPELL = None
             for target in targets:
                 if target == 0:
                     tnode = container
@@ -33,7 +43,7 @@ def _run_events(args):
                     tgt = target
                 ev = {'id': '%s.%d.%d' % (eid, j, target), 'doc': d, 'sel': ast,
                       'nsmap': [{'p': common.cps(p), 'u': common.cps(u)} for p, u in (nsmap or {}).items()],
-                      'scope': scope, 'target': tgt, 'css': css}
+                      'scope': scope, 'target': tgt, 'css': css, 'text': common.cps(css)}
                 try:
                     r = sv.select(css, tnode, namespaces=nsmap)
                     ev['res'] = [idmap.get(id(t), -1) for t in r]
